@@ -363,7 +363,7 @@ class CallerEnvEngine:
         ops = []
         for _ in range(rng.randint(3, 12)):
             e = rng.choices(subset, weights=w)[0]
-            opts = {"mseed": rng.randrange(10**9), "cbseed": rng.randrange(10**9), "alias": rng.random() < 0.2, "p": rng.randrange(6)}
+            opts = {"mseed": rng.randrange(10**9), "cbseed": rng.randrange(10**9), "alias": rng.random() < 0.2, "p": rng.randrange(60)}
             if submode == "program-enum":
                 opts["enum"] = True
             ops.append(["call", e, opts])
